@@ -188,6 +188,10 @@ func (c *Conn) readCommand(dec *imapwire.Decoder) error {
 	if !dec.ExpectAtom(&tag) || !dec.ExpectSP() || !dec.ExpectAtom(&name) {
 		return fmt.Errorf("in command: %w", dec.Err())
 	}
+	if strings.Contains(tag, "+") {
+		// A response tagged "+" would be a continuation request
+		return fmt.Errorf("in command: invalid tag %q", tag)
+	}
 	name = strings.ToUpper(name)
 
 	numKind := NumKindSeq
